@@ -56,7 +56,15 @@ func c18Definitions(c *c18Case) *c18Build {
 		g := gen.NewGraph(p)
 		s := g.Add(gen.Start, p+"_start", "")
 		prev := s
-		link := func(n *gen.Node) { g.Connect(prev, n, nil); prev = n }
+		var defFrom *gen.Node // the next flow leaving this node is its default flow
+		link := func(n *gen.Node) {
+			f := g.Connect(prev, n, nil)
+			if defFrom != nil && defFrom == prev {
+				prev.Default = f.ID
+				defFrom = nil
+			}
+			prev = n
+		}
 		switch shape {
 		case "task":
 			link(g.Add(gen.Task, p+"_t1", ""))
@@ -75,11 +83,26 @@ func c18Definitions(c *c18Case) *c18Build {
 		// message-flow sources live in process 0 behind a task of their own
 		if i == 0 && c.Link != "none" {
 			link(g.Add(gen.Task, p+"_pre", ""))
-			if c.Link == "start" || c.Link == "both" || c.Link == "start2" {
+			var loopMerge *gen.Node
+			if c.Link == "loopstart" {
+				// the throw event sits in a loop: the token passes it twice (two throws, two instantiations)
+				loopMerge = g.Add(gen.Xor, p+"_xm", "")
+				link(loopMerge)
+			}
+			if c.Link == "start" || c.Link == "both" || c.Link == "start2" || c.Link == "loopstart" {
 				th := g.Add(gen.Throw, p+"_throwS", "")
 				th.Events = []gen.EventDef{{Type: "message", Ref: "msgS"}}
 				link(th)
 				b.behind[p+"_pre"] = append(b.behind[p+"_pre"], th.ID)
+			}
+			if c.Link == "loopstart" {
+				lt := g.Add(gen.Task, p+"_lt", "")
+				lt.Writes = []string{"cnt"}
+				link(lt)
+				xs := g.Add(gen.Xor, p+"_xs", "")
+				link(xs)
+				g.Connect(xs, loopMerge, &gen.Cond{Kind: "var", Var: "cnt", Op: "<", Val: 2})
+				defFrom = xs
 			}
 			if c.Link == "start2" {
 				th := g.Add(gen.Throw, p+"_throwS2", "")
@@ -175,7 +198,7 @@ func c18Definitions(c *c18Case) *c18Build {
 		flows = append(flows, `<bpmn:messageFlow id="MF_s" sourceRef="p0_throwS" targetRef="pw_start"/>`,
 			`<bpmn:messageFlow id="MF_s2" sourceRef="p0_throwS2" targetRef="pw2_start"/>`)
 	}
-	if c.Link == "start" || c.Link == "both" {
+	if c.Link == "start" || c.Link == "both" || c.Link == "loopstart" {
 		g := gen.NewGraph("pw")
 		s := g.Add(gen.Start, "pw_start", "")
 		s.Events = []gen.EventDef{{Type: "message", Ref: "msgS"}}
@@ -208,7 +231,7 @@ func c18Cases(tier string, seed uint64) []fw.Case {
 	}
 	combos = append(combos, []string{"trivial", "trivial", "trivial"}, []string{"task", "trivial", "fork"}, []string{"fork", "task", "task"})
 	for ci, ex := range combos {
-		for _, link := range []string{"none", "start", "catch", "both", "start2", "waitcatch", "catch2"} {
+		for _, link := range []string{"none", "start", "catch", "both", "start2", "waitcatch", "catch2", "loopstart"} {
 			if link != "none" && ex[0] == "trivial" && len(ex) == 1 {
 				// fine: p0 gets the pre task anyway
 			}
@@ -451,6 +474,7 @@ func c18Run(c *c18Case, env *fw.Env, v *fw.V) {
 	}
 	// answer tasks one by one (sorted), following message flows in the reference
 	instantiations := 0
+	ltAnswers := 0
 	for guard := 0; guard < 40; guard++ {
 		p := pending()
 		if len(p) == 0 {
@@ -468,13 +492,25 @@ func c18Run(c *c18Case, env *fw.Env, v *fw.V) {
 		tt := reqs[act][answered[act]]
 		answered[act]++
 		mu.Unlock()
-		tt.Do(bpmn.DoWithResults(nil))
+		var results map[string]any
+		var mres map[string]int64
+		fires := b.behind[act]
+		if act == "p0_lt" {
+			// the loop task counts its answers; after the first one the token goes round again (second throw)
+			ltAnswers++
+			results = map[string]any{"cnt": ltAnswers}
+			mres = map[string]int64{"cnt": int64(ltAnswers)}
+			if ltAnswers == 1 {
+				fires = []string{"p0_throwS"}
+			}
+		}
+		tt.Do(bpmn.DoWithResults(results))
 		for i, m := range models {
 			if started[i] && m.Pending[act] > 0 {
-				m.Answer(act, nil)
+				m.Answer(act, mres)
 				{
 					// the throw events behind it fire now
-					for _, th := range b.behind[act] {
+					for _, th := range fires {
 						for _, l := range b.links[th] {
 							switch l.kind {
 							case "start":
